@@ -5,6 +5,9 @@
 #ifndef VC_T
 #define VC_T 8
 #endif
+#ifndef VC_T_LO
+#define VC_T_LO 2 /* lowest thread count of this instance (VC_T_LO == VC_T: one concrete count) */
+#endif
 #ifndef VC_MAXROWS
 #define VC_MAXROWS ((size_t)1 << 20)
 #endif
@@ -28,7 +31,7 @@ void h_slice_MT_MatrixDVectorDotProduct(void)
 {
   size_t rows = VC_IN_SIZE(), cols = VC_IN_SIZE();
   vc_nproc = VC_IN_SIZE();
-  VC_ASSUME(rows <= VC_MAXROWS && cols <= VC_MAXROWS && vc_nproc >= 2 && vc_nproc <= VC_T);
+  VC_ASSUME(rows <= VC_MAXROWS && cols <= VC_MAXROWS && vc_nproc >= VC_T_LO && vc_nproc <= VC_T);
   matrix m; dvector v, p;
   m.row = rows; m.col = cols; m.data = NULL;     /* never dereferenced: workers are intercepted */
   v.size = cols; v.data = NULL;
@@ -43,7 +46,7 @@ void h_slice_MT_DVectorMatrixDotProduct(void)
 {
   size_t rows = VC_IN_SIZE(), cols = VC_IN_SIZE();
   vc_nproc = VC_IN_SIZE();
-  VC_ASSUME(rows <= VC_MAXROWS && cols <= VC_MAXROWS && vc_nproc >= 2 && vc_nproc <= VC_T);
+  VC_ASSUME(rows <= VC_MAXROWS && cols <= VC_MAXROWS && vc_nproc >= VC_T_LO && vc_nproc <= VC_T);
   matrix m; dvector v, p;
   m.row = rows; m.col = cols; m.data = NULL;
   v.size = rows; v.data = NULL;
